@@ -45,4 +45,9 @@ theorem callpaths_nonempty :
     (callPaths.any fun p => p.fn == "call_primitive_func" && p.publishes) = true ∧
     (callPaths.any fun p => p.fn == "call_boxed_func" && p.publishes) = true := by decide
 
+/-- Every call of `with_locked_env` is preceded, in the same function, by a heap-lock guard that is KEPT (bound
+to a named variable): the model of the current code is the variant `State.fix = true` (`C15.code`).  (Before
+/repo d9e2a72a four of these sites were `let _ = …`, which drops the guard at once — finding K16a.) -/
+theorem gate_keeps_guard : 7 ≤ gateSites.length ∧ ∀ g ∈ gateSites, g.guardKept = true := by decide
+
 end SteelVerif.C16
